@@ -68,15 +68,36 @@ theorem rvalue_exactly_once_in_result (o : Op) (inp : Input) (a : Nat) (h : wf o
     (ha : inp.cat a = some .rv) : (outcome o inp).ExactlyOnceInResult a :=
   safe_rvalue_exactly_once (wf_ids h) (prog_safe o inp h) (prog_allToRes o inp a hk) a ha (prog_covers o inp a h hk ha)
 
-/-- **No element is destroyed** by an operation that is not one of those that destroy values by design (`drops`, 24 operations: the second
+/-- **No element is destroyed** by an operation that is not one of those that destroy values by design (`drops`, 26 operations: the second
 failure of `either::apply`, the failures before a `first_success`, a half-parsed sequence / product, the emptied `move_range`, the consumed
-second argument of `optional::combine`; and the in-place operations whose job it is - assignment and `set` overwrite, `erase` / `clear` /
+second argument of `optional::combine`, an element handed as an rvalue to a by-value function that keeps nothing (`optional::bind`,
+`either::sequence_error`); and the in-place operations whose job it is - assignment and `set` overwrite, `erase` / `clear` /
 `remove_if` / `unique_if` / `map_iteration` / `sequence_iteration` erase, `fill` overwrites): with `conserved`, every element is then live
 exactly `1 + copies` times in arguments and result together - e.g. `pop_back`'s element is in the result and the others stay in the
-container; `get_or_insert` leaves all elements where they were. For the 24 operations `conserved` accounts for every destroyed value in
+container; `get_or_insert` leaves all elements where they were. For the 26 operations `conserved` accounts for every destroyed value in
 `lost`, which the correspondence observes (`lost=` of the result line). -/
 theorem nothing_lost (o : Op) (inp : Input) (h : wf o inp = true) (hd : drops o = false) : (outcome o inp).lost = [] :=
   safe_nothing_lost (prog_safe o inp h) (prog_noDrop o inp hd)
+
+/-- **An element that is handed over as an rvalue is not needed afterwards.** A user's function that takes its parameter by value
+steals an rvalue it is handed (the modelled behaviour of the harness functions: `xfer … move`), and the library's own moves leave a
+moved-from object behind as well: whenever an instruction of a registered program moves from (or destroys) element object `(a, i)`,
+no later instruction hands that object to a user's function, reads it, copies it or moves it again - in particular an element that
+still reaches a user's function as an lvalue (`derive`) or is forwarded into the result later is never handed out as an rvalue before.
+(`optional::filter` handing the value of an rvalue optional to the predicate as an rvalue and forwarding the optional afterwards is
+exactly what this excludes; see the refuted example `seededFilter` below.) -/
+theorem rvalue_handover_is_last_use (o : Op) (inp : Input) (h : wf o inp = true) :
+    (prog o inp).Pairwise fun x y => ∀ a i, x.kills a i → ¬ y.uses a i :=
+  (prog_safe o inp h).clean
+
+/-- the same, for the calls of the user's functions only: after a hand-over as an rvalue (`r` in `uc`) the element is never handed to a
+user's function as an lvalue (`derive`) -/
+theorem no_lvalue_call_after_rvalue_handover (o : Op) (inp : Input) (h : wf o inp = true) (p q r : List Instr) (a i : Nat) (d d' : Dest)
+    (k : Nat) (hp : prog o inp = p ++ (.xfer a i .move d :: (q ++ (.derive a i k d' :: r)))) : False := by
+  have hc := rvalue_handover_is_last_use o inp h
+  rw [hp, List.pairwise_append] at hc
+  have h2 := (List.pairwise_cons.1 hc.2.1).1 (.derive a i k d') (by simp)
+  exact h2 a i (show Instr.kills (.xfer a i .move d) a i from ⟨rfl, rfl⟩) (show Instr.uses (.derive a i k d') a i from ⟨rfl, rfl⟩)
 
 /-- the programs never access an element object that does not exist (any more) -/
 theorem no_out_of_bounds (o : Op) (inp : Input) (h : wf o inp = true) : (exec o inp).oob = [] :=
@@ -139,6 +160,19 @@ example : ¬ (runOn ⟨[(.rv, [1, 2, 3])], []⟩ (oldParseRepPlus 3)).NoCopyOfRv
 /-- now every result is moved: nothing is copied -/
 example : (outcome .parseRepPlus ⟨[], [3]⟩).cp = [] ∧ (outcome .parseRepPlus ⟨[], [3]⟩).res = [(1000, true), (1001, true), (1002, true)] := by
   decide
+
+/-- seeded regression C05-3: `optional::filter` hands the value of an rvalue optional to the predicate as an rvalue (a by-value predicate
+steals it) and then forwards the same optional: the moved-from element is moved again into the result -/
+def seededFilter : List Instr := [.xfer 0 0 .move .drop, .xfer 0 0 .move .res]
+example : ¬ (runOn ⟨[(.rv, [1])], [1]⟩ seededFilter).NoReadAfterMove := by
+  intro h
+  exact absurd (show (runOn _ _).ram = [] from h) (by decide)
+example : ¬ seededFilter.Pairwise fun x y => ∀ a i, x.kills a i → ¬ y.uses a i := by
+  intro h
+  exact (List.pairwise_pair.1 h) 0 0 (show Instr.kills (.xfer 0 0 .move .drop) 0 0 from ⟨rfl, rfl⟩)
+    (show Instr.uses (.xfer 0 0 .move .res) 0 0 from ⟨rfl, rfl⟩)
+/-- as it is: the predicate gets an lvalue, the optional is forwarded afterwards -/
+example : (outcome .optFilter ⟨[(.rv, [1])], [1]⟩).ram = [] ∧ (outcome .optFilter ⟨[(.rv, [1])], [1]⟩).res = [(1, true)] := by decide
 
 /-! ## refuted: what else the conservation predicates exclude -/
 
